@@ -10,7 +10,7 @@ from sa.cf import cfg_of
 from sa.pm import ClassInfo, FuncInfo, call_name, norm, self_attr, walk_local_ordered
 from sa.report import Ob, rule
 
-from .common import attr_stores, expand, find_locals, ob, strip_ret, traces
+from .common import attr_stores, expand, find_locals, ob, single_return_expr, strip_ret, traces
 
 OUT = 'zeroconf._protocol.outgoing.DNSOutgoing'
 INC = 'zeroconf._protocol.incoming.DNSIncoming'
@@ -314,6 +314,23 @@ def layout(ctx: Any) -> List[Ob]:
     from .c13 import write_ttl_obligations
 
     obs.extend(write_ttl_obligations(ctx, R))
+    # header flag word (RFC 1035 4.1.1): the constants, and what the decoder reads from it, for both sides of the codec --
+    # a message is a query iff the QR bit (0x8000) is clear, a response iff it is set, truncated iff the TC bit (0x0200) is set
+    for nm, want in (('_FLAGS_QR_MASK', 0x8000), ('_FLAGS_QR_QUERY', 0x0000), ('_FLAGS_QR_RESPONSE', 0x8000), ('_FLAGS_AA', 0x0400), ('_FLAGS_TC', 0x0200)):
+        v = prog.const('zeroconf.const', nm)
+        obs.append(ob(R, ('src/zeroconf/const.py', '<module>'), f'{nm} = {v:#06x}' if isinstance(v, int) else f'{nm} = {v!r}', f'{nm} is {want:#06x} (RFC 1035 4.1.1)', v == want))
+    inc_cls = prog.cls(INC)
+    for meth, bit_fn in (('is_query', lambda fl: fl & 0x8000 == 0), ('is_response', lambda fl: fl & 0x8000 != 0), ('truncated', lambda fl: fl & 0x0200 != 0)):
+        hm = inc_cls.methods.get(meth) or inc_cls.properties.get(meth) if hasattr(inc_cls, 'properties') else inc_cls.methods.get(meth)
+        if hm is None:
+            raise AnalysisError(f'anchor vanished: DNSIncoming.{meth}')
+        e_ = single_return_expr(hm)
+        bad_fl = []
+        for fl in (0x0000, 0x8000, 0x8400, 0x0200, 0x8600, 0x0001, 0x7FFF):
+            v = fd.Evaluator(prog, hm.module, {f'{hm.params[0]}.flags': fl}).ev(e_)
+            if v is fd.UNKNOWN or bool(v) != bit_fn(fl):
+                bad_fl.append((hex(fl), v))
+        obs.append(ob(R, hm, e_, f'{meth} reads its bit of the flag word and nothing else', not bad_fl, f'wrong for flags {bad_fl}'))
     # none lost: a record handed to the builder with a time is kept exactly when it has not expired at that time (a record with
     # less than a second to live is written with remaining TTL 0, not dropped), and always for time 0
     aat = out.methods['add_answer_at_time']
